@@ -104,6 +104,10 @@ def corpus():
 
 
 def monitor(case, obs):
+    # one console reader at a time: with two alive, a typed line is taken by whichever gets it and the other one keeps the main loop waiting
+    for ev, ctx in obs.get("xlog") or []:
+        if isinstance(ctx, dict) and ctx.get("readers", 0) > 1 and not ctx.get("reader"):
+            return "%d console reader threads are alive at once (at %r): a line typed now does not reach the asking screen until another line is typed" % (ctx["readers"], ev[:3])
     x = X(case, obs)
     reads = [ev[1] for i, ev, ctx in x.events() if ev[0] == "read"]
     inputs = [(ev[1], ev[3], ev[4]) for i, ev, ctx in x.events() if ev[0] == "cb" and ev[2] == "input"]
